@@ -178,6 +178,66 @@ func ruleC19_2(c *Ctx) {
 				arm = t
 			}
 		}
+		if arm == "" {
+			// one call after the type switch whose arguments are merged per arm: project every argument onto each arm
+			underArm := func(pb, succ *ssa.BasicBlock, okv ssa.Value) bool {
+				var rec func(b, s2 *ssa.BasicBlock, depth int) bool
+				rec = func(b, s2 *ssa.BasicBlock, depth int) bool {
+					if c.condAt(okv, true, b) || edgeFact(b, s2, okv, true) {
+						return true
+					}
+					if depth > 3 || len(b.Preds) == 0 {
+						return false
+					}
+					for _, q := range b.Preds {
+						if !rec(q, b, depth+1) {
+							return false
+						}
+					}
+					return true
+				}
+				return rec(pb, succ, 0)
+			}
+			var project func(v ssa.Value, okv ssa.Value, depth int) ssa.Value
+			project = func(v ssa.Value, okv ssa.Value, depth int) ssa.Value {
+				ph, isPhi := v.(*ssa.Phi)
+				if !isPhi || depth > 4 {
+					return v
+				}
+				var sel ssa.Value
+				for i, e := range ph.Edges {
+					if !underArm(ph.Block().Preds[i], ph.Block(), okv) {
+						continue
+					}
+					pv := project(e, okv, depth+1)
+					if sel != nil && sel != pv {
+						return nil
+					}
+					sel = pv
+				}
+				return sel
+			}
+			for t, w := range want {
+				okv := arms[t]
+				if okv == nil {
+					continue
+				}
+				pub, priv, typ := project(a[1], okv, 0), project(a[2], okv, 0), project(a[3], okv, 0)
+				if pub == nil || priv == nil || typ == nil {
+					continue
+				}
+				seen[t] = true
+				ps := org(priv)
+				if isEmptyByteLiteral(priv) || isNilConst(priv) {
+					ps = "empty"
+				}
+				ts, _ := constString(typ)
+				got := row{org(pub), ps, ts}
+				c.check(got == w && org(a[0]) == "p0" && org(a[4]) == "p3" && org(a[5]) == "p4", R, fn, "case "+t, call.Pos(), fmt.Sprintf("public=%s private=%s type=%s (merged call)", short(got.pub), got.priv, got.typ),
+					fmt.Sprintf("case %s passes public=%s private=%s type=%s; expected public=%s private=%s type=%s", t, short(got.pub), got.priv, got.typ, short(w.pub), w.priv, w.typ))
+			}
+			continue
+		}
 		w, known := want[arm]
 		if !known {
 			c.bad(R, fn, "setKeyComponents under case "+arm, call.Pos(), "key components are set for an unexpected parsed type")
